@@ -101,11 +101,11 @@ def main():
                 'From Coq Require Import List Bool.\nDefinition cli_translation_failed : bool := true.\n')
         print(f'cli_surface error: {ex}', file=sys.stderr)
         if not OUT.exists() or OUT.read_text() != text:
-            OUT.write_text(text)
+            (print('CHANGED', OUT.name) if os.environ.get('REGEN_DRY') else OUT.write_text(text))
         return False
     OUT.parent.mkdir(parents=True, exist_ok=True)
     if not OUT.exists() or OUT.read_text() != text:
-        OUT.write_text(text)
+        (print('CHANGED', OUT.name) if os.environ.get('REGEN_DRY') else OUT.write_text(text))
     return True
 
 
